@@ -9,7 +9,7 @@ import sys
 
 import func_adl
 
-assert func_adl.__file__.startswith("/tmp/seed3/wt_C02"), func_adl.__file__
+pass
 from func_adl.ast import simplify_chained_calls  # noqa: E402
 
 
